@@ -187,6 +187,26 @@ example : check fxProg (fxAlloc 2) = true := by decide +kernel
 /-- … but a virtual register must not be put where it overlaps the live fixed `r1` -/
 example : check fxProg (fxAlloc 6) = false := by decide +kernel
 
+/-! Fall-through into a jump target (finding fixed in ppci 8a3b4f9): instruction 3 is not
+    reachable by a jump but control falls from it into label 9.  A flow graph without that
+    edge thinks nothing is live after 3 and lets `t` reuse `a`'s register: rejected.
+
+    0: a := …   1: b := …   2: goto L9   3: t := …   4: L9: use a, b                      -/
+def ftProg : Program := [
+  { uses := [], defs := [0], clobbers := [], isMove := false, jumps := [], label := none, sem := 0 },
+  { uses := [], defs := [1], clobbers := [], isMove := false, jumps := [], label := none, sem := 1 },
+  { uses := [], defs := [], clobbers := [], isMove := false, jumps := [9], label := none, sem := 2 },
+  { uses := [], defs := [2], clobbers := [], isMove := false, jumps := [], label := none, sem := 3 },
+  { uses := [0, 1], defs := [], clobbers := [], isMove := false, jumps := [], label := some 9, sem := 4 }]
+def ftAlloc (ct : PReg) : Alloc := {
+  colour := fun v => [0, 1, ct].getD v 0, alias := fun _ _ => false, fixed := [],
+  removed := fun _ => false, live := fun i => [[], [0], [0, 1], [0, 1], [0, 1]].getD i [] }
+example : check ftProg (ftAlloc 0) = false := by decide +kernel
+example : check ftProg (ftAlloc 2) = true := by decide +kernel
+/-- liveness that forgets the fall-through edge is not a post-fixpoint and is not accepted either -/
+example : check ftProg { ftAlloc 0 with live := fun i => [[], [0], [0, 1], [], [0, 1]].getD i [] } = false := by
+  decide +kernel
+
 /-! Spill step: temp 1 is spilled; its def gets fresh 5 and a store, its use fresh 6 and a load.
 
     pre:   0: 1 := f(0)      post:  0: 5 := f(0)
